@@ -8,7 +8,7 @@
 #   lab.sh run <id> [tier]              run the check on the (unpatched) lab repo
 #   lab.sh rm                           delete the lab
 set -u
-LAB=/var/tmp/mlab
+LAB="${LAB_DIR:-/var/tmp/mlab}"
 VERIF="$(cd "$(dirname "$0")/.." && pwd)"
 sync_lab() {
   mkdir -p "$LAB"
